@@ -113,8 +113,8 @@ def verify_function(key: str, contracts: dict, *, tier="quick", only_clauses=Non
     t0 = time.time()
     mod, qual = _split_key(key)
     oblig_timeout = c.get("timeout_ms", 10000 if tier == "quick" else 60000)
-    feas_timeout = c.get("feas_timeout_ms", 4000)
-    worklist: list[list[bool]] = [[]]
+    feas_timeout = c.get("feas_timeout_ms", 1500)
+    worklist: list = [{}]
     try:
         node = SOURCES.find(mod, qual)
     except Exception as e:
@@ -223,7 +223,10 @@ def _run_path(interp: Interp, ctx: Ctx, c: dict, key: str, rep: FunctionReport):
             break
     for p in list(loc):
         if p not in pos[: len(args)] and not p.startswith("_ghost"):
-            kwargs[p] = loc[p]
+            if a.kwarg is not None and p == a.kwarg.arg and isinstance(loc[p], dict):
+                kwargs.update(loc[p])
+            else:
+                kwargs[p] = loc[p]
     qn = qual
     try:
         interp.bind_params(f, args, kwargs, f.gl)
@@ -268,9 +271,25 @@ def _check_frame(interp, ctx, c, qn, loc, old):
         if path in mods:
             return
         if isinstance(new, sym.Rec) and isinstance(o, sym.Rec):
+            if new.cls_name != o.cls_name:
+                ctx.obligate(f"{qn}/frame/{path}", z3.BoolVal(False), kind="frame", detail=f"{path} unchanged")
+                return
             for k in o.fields:
                 if k in new.fields:
                     walk(f"{path}.{k}", new.fields[k], o.fields[k])
+            return
+        if isinstance(o, sym.SOpt) and any(m.startswith(path + ".") for m in mods):
+            # an Optional object some of whose fields may change: same None-ness, other fields unchanged
+            if isinstance(new, sym.SOpt):
+                ctx.obligate(f"{qn}/frame/{path}", new.isnone == o.isnone, kind="frame", detail=f"{path} None-ness unchanged")
+                if not ctx.branch(o.isnone, f"{path} is None"):
+                    walk(path, new.val, o.val)
+                return
+            if new is None:
+                ctx.obligate(f"{qn}/frame/{path}", o.isnone, kind="frame", detail=f"{path} None-ness unchanged")
+                return
+            ctx.obligate(f"{qn}/frame/{path}", z3.Not(o.isnone), kind="frame", detail=f"{path} None-ness unchanged")
+            walk(path, new, o.val)
             return
         try:
             t = sym.eq_term(ctx, new, o)
@@ -291,7 +310,7 @@ def verify_lemma(name: str, *, tier="quick") -> FunctionReport:
     rep = FunctionReport("lemma:" + name)
     rep.bounded = l.get("bounded")
     t0 = time.time()
-    worklist: list[list[bool]] = [[]]
+    worklist: list = [{}]
     c = {"gl": l["gl"], "module": l["module"]}
     any_feasible = False
     while worklist:
